@@ -12,6 +12,7 @@ import (
 	"encoding/json"
 	"fmt"
 	"io"
+	"net/http"
 	"net/http/httptest"
 	"net/url"
 	"os"
@@ -461,7 +462,7 @@ func (e *c14Env) do(r c14Req) c14Result {
 		path += "?" + q.Encode()
 	}
 	out := c14Result{}
-	tries := 1
+	tries := 3 // a transport-level failure of fiber's in-memory test connection is re-requested
 	if r.Endpoint == "arrow" {
 		tries = 6 // open finding C19-arrow-trailer-header-race: broken framing is re-requested
 	}
@@ -476,7 +477,7 @@ func (e *c14Env) do(r c14Req) c14Result {
 		if r.Token == c14TokenDB2 {
 			req.Header.Set("x-verif-token", "8")
 		}
-		resp, err := e.app.Test(req, -1)
+		resp, err := c14SafeTest(e.app, req)
 		if err != nil {
 			out.Err = err
 			continue
@@ -499,6 +500,18 @@ func (e *c14Env) do(r c14Req) c14Result {
 	sort.Strings(out.Paths)
 	out.Flat, out.Success = c14Flatten(r.Endpoint, out.Status, out.Body)
 	return out
+}
+
+// c14SafeTest runs app.Test and converts a panic inside fiber's test transport
+// (seen under heavy load: nil dereference in app.Test's error handling) into an
+// ordinary transport error, so it is retried instead of aborting the run.
+func c14SafeTest(app *fiber.App, req *http.Request) (resp *http.Response, err error) {
+	defer func() {
+		if r := recover(); r != nil {
+			resp, err = nil, fmt.Errorf("panic in fiber test transport: %v", r)
+		}
+	}()
+	return app.Test(req, -1)
 }
 
 func c14IPCReadable(body []byte) bool {
